@@ -1,5 +1,5 @@
 (* Comparison functions used by the generated correspondence cases of C01 (no proofs). *)
-From Coq Require Import List Arith Bool.
+From Coq Require Import List Arith Bool NArith.
 From LV Require Import Cfg.Grammar Cfg.Analysis Earley.Spec Earley.Alg.
 Import ListNotations.
 
@@ -8,17 +8,17 @@ Definition mk_grammar (l : list (nat * list symbol)) : grammar := map (fun p => 
 Fixpoint index_of (G : grammar) (r : rule) : nat :=
   match G with
   | [] => 0
-  | r' :: G' => if rule_eq_dec r r' then 0 else S (index_of G' r)
+  | r' :: G' => if rule_eqb r r' then 0 else S (index_of G' r)
   end.
 
-Definition triple := (nat * nat * nat)%type.
-Definition triple_eqb (a b : triple) : bool :=
-  let '(a1, a2, a3) := a in let '(b1, b2, b3) := b in Nat.eqb a1 b1 && Nat.eqb a2 b2 && Nat.eqb a3 b3.
-Definition item_triple (G : grammar) (x : item) : triple := (index_of G (irule x), dot x, orig x).
+(* an item (rule index, ptr, start) packed into one binary number: (rule * 64 + ptr) * 64 + start
+   (the harness refuses cases with ptr or start >= 64) *)
+Definition item_code (G : grammar) (x : item) : N :=
+  ((N.of_nat (index_of G (irule x)) * 64 + N.of_nat (dot x)) * 64 + N.of_nat (orig x))%N.
 
-Definition subset (a b : list triple) : bool := forallb (fun x => existsb (triple_eqb x) b) a.
-Definition set_eqb (a b : list triple) : bool := subset a b && subset b a.
-Fixpoint sets_eqb (a b : list (list triple)) : bool :=
+Definition subset (a b : list N) : bool := forallb (fun x => existsb (N.eqb x) b) a.
+Definition set_eqb (a b : list N) : bool := subset a b && subset b a.
+Fixpoint sets_eqb (a b : list (list N)) : bool :=
   match a, b with
   | [], [] => true
   | x :: a', y :: b' => set_eqb x y && sets_eqb a' b'
@@ -29,20 +29,27 @@ Fixpoint sets_eqb (a b : list (list triple)) : bool :=
 Definition outcome_code (o : outcome) : nat :=
   match o with Accept => 0 | RejectEOF => 1 | RejectTok i => 2 + i | OutOfFuel _ => 4999 end.
 
-(* one case: rules (lark's compiled BNF, in parser_conf.rules order), start, token ids, and what lark did:
-   outcome code, column item sets and to_scan item sets after each predict_and_complete call *)
-Definition ecase := (list (nat * list symbol) * nat * list nat * nat * nat * list (list triple) * list (list triple))%type.
-
 (* lark did not compute the last `drop` columns of the model (basic lexer failing on a foreign character) *)
 Definition drop_last {A} (drop : nat) (l : list A) : list A := firstn (length l - drop) l.
 
-Definition earley_check (c : ecase) : bool :=
-  let '(rules, start, toks, code, drop, cols, scans) := c in
-  let G := mk_grammar rules in
+(* one observed run: token ids, what lark did (outcome code, number of trailing model columns lark did not
+   compute), column item sets and to_scan item sets after each predict_and_complete call *)
+Definition erun := (list nat * nat * nat * list (list N) * list (list N))%type.
+
+Definition run_check (G : grammar) (start : nat) (c : erun) : bool :=
+  let '(toks, code, drop, cols, scans) := c in
   let r := earley_parse G start toks in
   Nat.eqb (outcome_code (r_out r)) code
-  && sets_eqb (map (map (item_triple G)) (drop_last drop (r_cols r))) cols
-  && sets_eqb (map (map (item_triple G)) (drop_last drop (r_scans r))) scans.
+  && sets_eqb (map (map (item_code G)) (drop_last drop (r_cols r))) cols
+  && sets_eqb (map (map (item_code G)) (drop_last drop (r_scans r))) scans.
+
+(* one case: lark's compiled BNF (parser_conf.rules order), start symbol, the runs observed with it *)
+Definition ecase := (list (nat * list symbol) * nat * list erun)%type.
+
+Definition earley_check (c : ecase) : bool :=
+  let '(rules, start, runs) := c in
+  let G := mk_grammar rules in
+  forallb (run_check G start) runs.
 
 (* Parser.predictions[a] as the ordered list of rule indices *)
 Definition pcase := (list (nat * list symbol) * nat * list nat)%type.
